@@ -1,7 +1,7 @@
 (** C19 - Output decoration never loses or mixes task output; format is presentation only.   (partial, see the end) *)
 From Coq Require Import List Arith NArith Bool.
 Import ListNotations.
-From TaskctlV Require Import Model.Prefixed Model.Regex Proofs.PrefixedSpec.
+From TaskctlV Require Import Model.Prefixed Model.Regex Model.Locks Proofs.PrefixedSpec Proofs.LocksSpec.
 
 (* raw output forwards a task's bytes unchanged and in order *)
 Theorem C19_raw_identity : forall chunks, concat (raw_writes chunks) = concat chunks /\ raw_writes chunks = chunks.
@@ -35,6 +35,23 @@ Theorem C19_cockpit_no_crash : forall ks, cockpit_run true ks <> CPanic.
 Proof. exact cockpit_never_panics. Qed.
 Print Assumptions C19_cockpit_no_crash.
 
+(* ... nor hang: the repaired cockpit takes its three mutexes in one order (spinnerMu < the spinner's lock < the cockpit
+   mutex), so NO reachable state of any number of decorators, each adding and removing tasks any number of times, next to a
+   spinner goroutine drawing any number of frames, has every unfinished thread blocked.  General fact first: *)
+Theorem C19_lock_order_excludes_deadlock : forall L s, LocksSpec.Inv s -> bounded L s -> finished s = false -> exists t s', lstep s t = Some s'.
+Proof. exact ordered_never_stuck. Qed.
+Print Assumptions C19_lock_order_excludes_deadlock.
+Theorem C19_cockpit_no_deadlock : forall n r k ts s, lrun (cockpit_sys true n r k) ts = Some s -> finished s = false ->
+  exists t s', lstep s t = Some s'.
+Proof. exact cockpit_fixed_never_stuck. Qed.
+Print Assumptions C19_cockpit_no_deadlock.
+(* the pinned remove restarted the spinner while holding the cockpit mutex: one decorator and one frame suffice to dead-lock *)
+Theorem C19_pinned_refuted_cockpit_deadlock : exists ts s, lrun (cockpit_sys false 1 1 1) ts = Some s /\ stuck s = true.
+Proof. exists [1; 1; 1; 0], (match lrun (cockpit_sys false 1 1 1) [1; 1; 1; 0] with Some s => s | None => [] end). split; vm_compute; reflexivity. Qed.
+Print Assumptions C19_pinned_refuted_cockpit_deadlock.
+Example C19_cockpit_nonvacuous : exists s, lrun (cockpit_sys true 2 1 1) [1; 1; 0; 2; 2; 0; 0; 1; 1; 1] = Some s /\ finished s = false.
+Proof. eexists. split; vm_compute; reflexivity. Qed.
+
 (* non-vacuity: a stream cut inside a line and inside a CR LF pair, with a complete escape sequence in one chunk *)
 Definition ex_chunks : list (list N) := [[97; 27; 91; 51; 49; 109; 98]; [99; 13]; [10; 100; 10]]%N.
 Example C19_nonvacuous_safe : strip_safe strip_ansi ex_chunks.
@@ -58,5 +75,5 @@ Print Assumptions C19_pinned_refuted_cockpit_skipped.
 (* PARTIAL.  Proved for the model: the four theorems above.  Not exhibited by the model, observed by the harness only:
    that one Write on the real sink is atomic (the property observes at a synchronised sink), that the real ANSI regexp
    is local to lines (it is validated against Go's regexp by differential runs; none of its classes contains CR or LF),
-   the timing of the cockpit's spinner goroutine (lock order), and that a task's recorded result does not depend on the
+   the internals of the third-party spinner (its goroutine's own protocol beyond `lock; PreUpdate; unlock`), and that a task's recorded result does not depend on the
    format (in the model run_task has no format parameter at all; the harness runs every outcome under the three formats). *)
